@@ -17,7 +17,7 @@ func init() {
 		Explanation: "Structural conditions for uninterrupted service across a reload, on all paths: (ORDER) in the reload function the new configuration is started before the old one is " +
 			"stopped, and the old one is stopped only on the start-success edge; (REFCOUNT) in every shared-listener Acquire the socket is created only when absent, the handle count is " +
 			"incremented exactly once on every success return and not at all on failure returns, count and socket are accessed only under the listener's mutex, and the shared socket is " +
-			"closed only on the count == 0 edge after the decrement; (SURVIVE) nothing reachable from the stream handler consults context cancellation (Done/Err/AfterFunc/Cause), so " +
+			"closed only on the count == 0 edge after the decrement; (SURVIVE) nothing reachable from the stream handler — nor the serve loop and its closures between accept and hand-over — consults context cancellation (Done/Err/AfterFunc/Cause), so " +
 			"cancelling the serve context at listener shutdown cannot close connections that are relaying, and the serve loop itself closes no connection outside the per-connection goroutine. (CLOSEDGUARD/DELIVER) a handle excludes the closed state first and returns every connection it has taken; a taken read request is awaited unconditionally; reader goroutines stop only when the socket is closed or on their cancel arm.",
 		NotDecided: "kernel accept-queue behaviour during the overlap, timing, that every accepted connection is handled by exactly one generation at run time (C12 covers the hand-off structure).",
 	})
